@@ -1,7 +1,430 @@
-//! C21 — not implemented yet (see DESIGN.md section 4).
-use kit::Run;
-use serde_json::Value;
+//! C21 — update manifests cannot alter bound content or carry forbidden parts (S-inp, bounded exhaustive).
+//!
+//! (A) Update manifests made through `BuilderIntent::Update` on JPEG / PNG / MP4 (and an update on an update) must read Valid.
+//! (B) Content mutations: every media byte (= every byte outside what the parent's signed hard binding declares excluded,
+//!     resolved by the harness's own resolvers) x patterns, deletions, insertions, appends: never Valid/Trusted.
+//! (C) Crafted rule-violating update manifests, built at store level through `c2pa::verif_hooks::update_manifest`
+//!     (the public API refuses to build them): no ingredient, only non-parent ingredients, two parentOf ingredients,
+//!     a hard binding, each action that is not allowed for update manifests: never Valid/Trusted. A crafted rule-abiding
+//!     control built the same way must read Valid (else the crafting path is broken: machinery failure).
+//! (D) The update-manifest marker is the (unsigned) JUMBF type UUID of the manifest box: relabel a standard manifest
+//!     (which has a correct hard binding and, in one variant, a disallowed action) as an update manifest by
+//!     rewriting that UUID: never Valid/Trusted.
+//!
+//! Mutants caught (tools/mutant_run.sh B ... C21 quick):
+//!   /verif/mutants/C21-skip-binding-for-update.diff
+//!   /verif/mutants/C21-action-prefix-match.diff
 
-pub fn run(_run: &Run, _replay: Option<&Value>) {
-    kit::ev::machinery("C21: check not implemented");
+use std::io::Cursor;
+
+use c2pa::{
+    assertions::{Action, Actions, DataHash, Relationship},
+    verif_hooks::{self, update_manifest as um, Claim, Store},
+    ClaimGeneratorInfo, HashRange,
+};
+use kit::{
+    assets, par, sdk,
+    tamper::{self, Edit, Obs},
+    Run,
+};
+use serde_json::{json, Value};
+
+use super::c01::{self, Seed};
+
+const NO_VERIFY_AFTER_SIGN: &str = r#"{"verify":{"verify_after_sign":false}}"#;
+const FORMATS: [&str; 3] = ["jpeg", "png", "mp4"];
+
+const DISALLOWED: [&str; 17] = [
+    "c2pa.edited", "c2pa.cropped", "c2pa.color_adjustments", "c2pa.converted", "c2pa.created", "c2pa.drawing", "c2pa.filtered",
+    "c2pa.orientation", "c2pa.placed", "c2pa.removed", "c2pa.repackaged", "c2pa.resized", "c2pa.transcoded", "c2pa.translated",
+    "c2pa.unknown", "c2pa.watermarked", "com.kit.custom",
+];
+
+fn signer() -> Box<dyn c2pa::Signer + Send + Sync> {
+    sdk::fixture_signer("ed25519")
+}
+
+struct Base {
+    fmt: &'static str,
+    mime: &'static str,
+    parent: Vec<u8>,
+    upd: Seed,
+    upd2: Seed,
+}
+
+fn bases() -> Vec<Base> {
+    FORMATS
+        .iter()
+        .map(|f| {
+            let a = assets::by_name(f);
+            let parent = sdk::sign_simple(signer().as_ref(), a.mime, &a.data, &[]);
+            let u = c01::sign_update(a.mime, &parent, &[]);
+            let u2 = c01::sign_update_titled(a.mime, &u, &[], "upd-second");
+            Base {
+                fmt: a.name,
+                mime: a.mime,
+                parent,
+                upd: c01::finish_seed(format!("{f}/update"), &a, u, None, true),
+                upd2: c01::finish_seed(format!("{f}/update2"), &a, u2, None, true),
+            }
+        })
+        .collect()
+}
+
+// ---------------------------------------------------------------------------------------------- (B)
+
+fn content_edits(seed: &Seed, thorough: bool) -> Vec<Edit> {
+    let f = &seed.signed;
+    let media: Vec<usize> = (0..f.len()).filter(|p| !seed.excl.iter().any(|(s, e)| p >= s && p < e)).collect();
+    let mut v = vec![];
+    for &p in &media {
+        let masks: &[u8] = if thorough { &[0x01, 0x80, 0xFF] } else { &[0xFF] };
+        for m in masks {
+            v.push(Edit::flip(f, p, *m));
+        }
+        if thorough {
+            v.push(Edit::delete(p));
+            v.push(Edit::insert(p, 0));
+        }
+    }
+    // content appended / inserted as whole units
+    v.push(Edit::append(f, vec![0], "append-zero", "append-zero n=1".into()));
+    v.push(Edit::append(f, vec![0xFF; 8], "append", "append-ff n=8".into()));
+    if let Some(x) = c01::well_formed_extra_unit(seed.family) {
+        v.push(Edit::append(f, x.clone(), "append-new-unit", "append-new-unit".into()));
+        if let Some(units) = &seed.units {
+            for (i, u) in units.iter().enumerate() {
+                v.push(Edit::splice("insert-new-unit", u.start, u.start, x.clone(), format!("insert-new-unit before-unit={i}")));
+            }
+        }
+    }
+    v
+}
+
+fn judge_content(run: &Run, seed: &Seed, e: &Edit, verbose: bool) -> String {
+    let m = e.apply(&seed.signed);
+    let obs = seed.observe(&m);
+    run.eval();
+    let class = obs.class();
+    if verbose {
+        println!("  content seed={} edit={} -> {class}", seed.id, e.to_json());
+    }
+    let case = json!({"kind":"content","seed": seed.id, "edit": e.to_json()});
+    match &obs {
+        Obs::Panic(p) => run.violation(format!("panic content {} {}", seed.fmt, tamper::panic_key(p)), format!("{}: {p}", seed.id), case),
+        Obs::Accepted { state, .. } => {
+            // a unit edit may land inside declared-excluded bytes (e.g. an inserted box the BMFF hash excludes by xpath): not a content change
+            if tamper::confined(&seed.binding, &seed.signed, &seed.excl, &seed.prot, &m) {
+                return "accepted-excluded-only".into();
+            }
+            run.violation(
+                format!("content-change-undetected {} {} at={} edit={}", seed.binding.name(), seed.fmt, c01::where_of(seed, e, &m), e.kind),
+                format!("{}: {} at {} changes media bytes bound by the parent manifest, the reader still reports {state}", seed.id, e.kind, e.start),
+                case,
+            )
+        }
+        Obs::Invalid => run.nontrivial(format!("{}:{}", seed.id, e.sym)),
+        Obs::Err(_) => {}
+    }
+    class
+}
+
+// ---------------------------------------------------------------------------------------------- (C)
+
+#[derive(Clone, Debug, PartialEq)]
+enum Variant {
+    Control,
+    ControlNoActions,
+    ControlAllowed(&'static str),
+    NoIngredient,
+    NoIngredientPublished,
+    OnlyNonParent(&'static str),
+    TwoParents,
+    HardBinding,
+    Disallowed(&'static str, bool),
+}
+
+impl Variant {
+    fn name(&self) -> String {
+        match self {
+            Variant::Control => "control".into(),
+            Variant::ControlNoActions => "control-no-actions".into(),
+            Variant::ControlAllowed(a) => format!("control-allowed-action={a}"),
+            Variant::NoIngredient => "no-ingredient".into(),
+            Variant::NoIngredientPublished => "no-ingredient+published".into(),
+            Variant::OnlyNonParent(r) => format!("only-{r}-ingredient"),
+            Variant::TwoParents => "two-parentOf".into(),
+            Variant::HardBinding => "hard-binding-datahash".into(),
+            Variant::Disallowed(a, own) => format!("disallowed-action={a}{}", if *own { " (own assertion)" } else { "" }),
+        }
+    }
+    fn abiding(&self) -> bool {
+        matches!(self, Variant::Control | Variant::ControlNoActions | Variant::ControlAllowed(_))
+    }
+}
+
+fn variants(thorough: bool) -> Vec<Variant> {
+    let mut v = vec![
+        Variant::Control,
+        Variant::ControlNoActions,
+        Variant::ControlAllowed("c2pa.published"),
+        Variant::ControlAllowed("c2pa.edited.metadata"),
+        Variant::NoIngredient,
+        Variant::NoIngredientPublished,
+        Variant::OnlyNonParent("componentOf"),
+        Variant::OnlyNonParent("inputTo"),
+        Variant::TwoParents,
+        Variant::HardBinding,
+    ];
+    for a in DISALLOWED {
+        v.push(Variant::Disallowed(a, false));
+        if thorough {
+            v.push(Variant::Disallowed(a, true));
+        }
+    }
+    v
+}
+
+/// Build the crafted update manifest over `base.parent`. Err(text) = the SDK refused to build/sign it.
+fn craft(base: &Base, var: &Variant) -> Result<Vec<u8>, String> {
+    let ctx = sdk::ctx_with(&[NO_VERIFY_AFTER_SIGN]);
+    let e = |what: &str, e: c2pa::Error| format!("{what}: {e:?}");
+    // the legitimate update manifest is the template for the ingredient assertion (v3 ingredient with validation results)
+    let (upd_store_bytes, _) = Store::load_jumbf_from_stream(base.mime, &mut Cursor::new(&base.upd.signed), &ctx).map_err(|x| e("load update store", x))?;
+    let tmpl_store = verif_hooks::store_from_jumbf(&upd_store_bytes, &ctx).map_err(|x| e("parse update store", x))?;
+    let tmpl = tmpl_store.provenance_claim().ok_or("template has no provenance claim")?;
+    let (parent_store_bytes, _) = Store::load_jumbf_from_stream(base.mime, &mut Cursor::new(&base.parent), &ctx).map_err(|x| e("load parent store", x))?;
+
+    let mut c = Claim::new("kit-crafted", Some("kit"), 2);
+    c.add_claim_generator_info(ClaimGeneratorInfo::new("kit-crafted"));
+    let mut st = Store::load_ingredient_to_claim(&mut c, &parent_store_bytes, None, &ctx).map_err(|x| e("load_ingredient_to_claim", x))?;
+
+    let rel = |r: &str| match r {
+        "componentOf" => Relationship::ComponentOf,
+        "inputTo" => Relationship::InputTo,
+        _ => Relationship::ParentOf,
+    };
+    let mut ing = vec![];
+    match var {
+        Variant::NoIngredient | Variant::NoIngredientPublished => {}
+        Variant::OnlyNonParent(r) => ing.push(um::copy_ingredient_assertion(&mut c, tmpl, 0, Some(rel(r))).map_err(|x| e("copy ingredient", x))?),
+        Variant::TwoParents => {
+            ing.push(um::copy_ingredient_assertion(&mut c, tmpl, 0, None).map_err(|x| e("copy ingredient", x))?);
+            ing.push(um::copy_ingredient_assertion(&mut c, tmpl, 0, None).map_err(|x| e("copy ingredient 2", x))?);
+        }
+        _ => ing.push(um::copy_ingredient_assertion(&mut c, tmpl, 0, None).map_err(|x| e("copy ingredient", x))?),
+    }
+    let mut actions = Actions::new();
+    let mut have = false;
+    if let (Some(first), false) = (ing.first(), matches!(var, Variant::ControlNoActions | Variant::OnlyNonParent(_))) {
+        actions = actions.add_action(Action::new("c2pa.opened").set_parameter("ingredients", vec![first.clone()]).map_err(|x| e("opened", x))?);
+        have = true;
+    }
+    match var {
+        Variant::ControlAllowed(a) | Variant::Disallowed(a, false) => {
+            actions = actions.add_action(Action::new(*a));
+            have = true;
+        }
+        Variant::NoIngredientPublished => {
+            actions = actions.add_action(Action::new("c2pa.published"));
+            have = true;
+        }
+        _ => {}
+    }
+    if have {
+        c.add_assertion(&actions).map_err(|x| e("add actions", x))?;
+    }
+    if let Variant::Disallowed(a, true) = var {
+        c.add_assertion(&Actions::new().add_action(Action::new(*a))).map_err(|x| e("add second actions", x))?;
+    }
+    if *var == Variant::HardBinding {
+        let mut dh = DataHash::new("jumbf manifest", "sha256");
+        dh.add_exclusion(HashRange::new(0, base.parent.len() as u64));
+        dh.set_hash(vec![7u8; 32]);
+        c.add_assertion(&dh).map_err(|x| e("add data hash", x))?;
+    }
+    um::set_update_manifest(&mut c, true);
+    st.commit_claim(c).map_err(|x| e("commit_claim", x))?;
+    let (asset, _) = um::save_to_stream(&mut st, base.mime, &base.parent, signer().as_ref(), &ctx).map_err(|x| e("save_to_stream", x))?;
+    Ok(asset)
+}
+
+fn judge_crafted(run: &Run, base: &Base, var: &Variant, verbose: bool) {
+    run.eval();
+    let name = var.name();
+    let case = json!({"kind":"crafted","fmt": base.fmt, "variant": name});
+    let built = match par::guard(|| craft(base, var)) {
+        Err(p) => {
+            run.violation(format!("panic crafting {} {name}", base.fmt), p, case);
+            return;
+        }
+        Ok(b) => b,
+    };
+    let asset = match built {
+        Err(why) => {
+            if var.abiding() {
+                kit::ev::machinery(format!("C21: rule-abiding crafted control `{name}` on {} could not be built: {why}", base.fmt));
+            }
+            if verbose {
+                println!("  crafted {} {name}: refused while building/signing: {why}", base.fmt);
+            }
+            run.outcome(format!("crafted:{name}:refused-at-signing"));
+            return;
+        }
+        Ok(a) => a,
+    };
+    let spec = tamper::ReadSpec { mime: base.mime.into(), settings: vec![] };
+    let obs = tamper::observe(&spec, &asset);
+    if verbose {
+        let codes = sdk::read(sdk::ctx(), base.mime, &asset).map(|r| kit::canon::codes(&r)).unwrap_or_default();
+        println!("  crafted {} {name}: {} {:?}", base.fmt, obs.class(), codes.iter().filter(|c| c.contains("failure")).collect::<Vec<_>>());
+    }
+    run.outcome(format!("crafted:{}:{}", if var.abiding() { "abiding" } else { "violating" }, obs.class()));
+    // is the thing we built really an update manifest? (else the case says nothing)
+    let is_update = asset.windows(8).filter(|w| w == b"jumdc2um").count();
+    if is_update == 0 {
+        kit::ev::machinery(format!("C21: crafted `{name}` on {} carries no update-manifest box (c2um)", base.fmt));
+    }
+    match (&obs, var.abiding()) {
+        (Obs::Panic(p), _) => run.violation(format!("panic crafted {} {name}", base.fmt), p.clone(), case),
+        (Obs::Accepted { .. }, true) => run.nontrivial(format!("{}/{name}", base.fmt)),
+        (other, true) => kit::ev::machinery(format!("C21: rule-abiding crafted control `{name}` on {} reads {} — crafting path broken", base.fmt, other.class())),
+        (Obs::Accepted { state, .. }, false) => run.violation(
+            format!("rule-violating-update-accepted {name} fmt={}", base.fmt),
+            format!("{}: crafted update manifest `{name}` is reported {state}", base.fmt),
+            case,
+        ),
+        (_, false) => run.nontrivial(format!("{}/{name}", base.fmt)),
+    }
+}
+
+// ---------------------------------------------------------------------------------------------- (D)
+
+/// Offsets of the manifest-type UUID prefix (`c2ma` / `c2um`) of every manifest box, in file order.
+fn manifest_type_offsets(_family: &str, asset: &[u8]) -> Vec<usize> {
+    let tail = [0x00u8, 0x11, 0x00, 0x10, 0x80, 0x00, 0x00, 0xAA, 0x00, 0x38, 0x9B, 0x71];
+    (4..asset.len().saturating_sub(16))
+        .filter(|&p| (&asset[p..p + 4] == b"c2ma" || &asset[p..p + 4] == b"c2um") && asset[p + 4..p + 16] == tail && &asset[p - 4..p] == b"jumd")
+        .collect()
+}
+
+fn judge_relabel(run: &Run, base: &Base, which: &str, verbose: bool) {
+    run.eval();
+    let fam = tamper::family(base.mime);
+    let case = json!({"kind":"relabel","fmt": base.fmt, "which": which});
+    let (src, idx_from_end, to): (Vec<u8>, usize, &[u8; 4]) = match which {
+        // standard manifest (correct hard binding, c2pa.opened + parent) relabelled as an update manifest
+        "standard-as-update" => (base.parent.clone(), 0, b"c2um"),
+        // standard manifest with an edit action relabelled as update manifest
+        "standard-edited-as-update" => {
+            let a = assets::by_name(base.fmt);
+            let mut b = sdk::builder(sdk::ctx(), c01::DEF);
+            b.add_action(json!({"action":"c2pa.edited"})).unwrap_or_else(|e| kit::ev::machinery(format!("C21 relabel seed: {e:?}")));
+            let (o, _) = sdk::sign(&mut b, signer().as_ref(), a.mime, &base.parent).unwrap_or_else(|e| kit::ev::machinery(format!("C21 relabel seed: {e:?}")));
+            (o, 0, b"c2um")
+        }
+        // informational only: update manifest relabelled as a standard manifest
+        "update-as-standard" => (base.upd.signed.clone(), 0, b"c2ma"),
+        _ => kit::ev::machinery("unknown relabel"),
+    };
+    let offs = manifest_type_offsets(fam, &src);
+    if offs.is_empty() {
+        kit::ev::machinery(format!("C21 relabel: no manifest type UUID found in {} asset", base.fmt));
+    }
+    let p = offs[offs.len() - 1 - idx_from_end];
+    let base_obs = tamper::observe(&tamper::ReadSpec { mime: base.mime.into(), settings: vec![] }, &src);
+    if !matches!(base_obs, Obs::Accepted { .. }) {
+        kit::ev::machinery(format!("C21 relabel seed {which} on {} does not read Valid", base.fmt));
+    }
+    let mut m = src.clone();
+    m[p..p + 4].copy_from_slice(to);
+    let obs = tamper::observe(&tamper::ReadSpec { mime: base.mime.into(), settings: vec![] }, &m);
+    if verbose {
+        println!("  relabel {} {which} (offset {p}): {}", base.fmt, obs.class());
+    }
+    run.outcome(format!("relabel:{which}:{}", obs.class()));
+    if which == "update-as-standard" {
+        return; // not an update manifest any more: outside the property text, recorded only
+    }
+    match &obs {
+        Obs::Panic(pm) => run.violation(format!("panic relabel {} {which}", base.fmt), pm.clone(), case),
+        Obs::Accepted { state, .. } => run.violation(
+            format!("rule-violating-update-accepted relabel={which} fmt={}", base.fmt),
+            format!("{}: a standard manifest (with hard binding) whose manifest box type is rewritten to the update-manifest UUID is reported {state}", base.fmt),
+            case,
+        ),
+        _ => run.nontrivial(format!("{}/relabel/{which}", base.fmt)),
+    }
+}
+
+pub fn run(run: &Run, replay: Option<&Value>) {
+    run.rule("non-trivial = content mutants on which the reader reached a verdict, crafted/relabelled update manifests that were built, embedded and reached the reader (controls must read Valid)");
+    run.assume("update manifests are produced by Builder with BuilderIntent::Update over kit JPEG/PNG/MP4 signed with the default binding; crafted variants are built through verif_hooks::update_manifest (Claim::set_update_manifest, Store::save_to_stream) with verify_after_sign off");
+    run.assume("`media bytes` = bytes outside what the parent's signed hard binding declares excluded, by the harness's resolvers (tamper.rs)");
+    run.assume("a hard binding inside an update manifest is tested with (i) a crafted DataHash whose hash is not correct and (ii) a correct one by relabelling a standard manifest; a correct hash in a crafted claim is not constructed");
+    let bases = bases();
+    let thorough = run.tier.is_thorough();
+
+    if let Some(c) = replay {
+        let fmt = c["fmt"].as_str().or_else(|| c["seed"].as_str().and_then(|s| s.split('/').next())).unwrap_or("");
+        let base = bases.iter().find(|b| b.fmt == fmt).unwrap_or_else(|| kit::ev::machinery("replay: unknown format"));
+        match c["kind"].as_str() {
+            Some("content") => {
+                let seed = if c["seed"].as_str().unwrap_or("").ends_with("update2") { &base.upd2 } else { &base.upd };
+                let sym = c["edit"].as_str().unwrap_or("");
+                let e = content_edits(seed, true)
+                    .into_iter()
+                    .find(|e| e.sym == sym)
+                    .unwrap_or_else(|| kit::ev::machinery(format!("replay: no content edit `{sym}`")));
+                println!("replay C21 content: seed {} excluded {:?}", seed.id, seed.excl);
+                judge_content(run, seed, &e, true);
+            }
+            Some("crafted") => {
+                let name = c["variant"].as_str().unwrap_or("");
+                let var = variants(true).into_iter().find(|v| v.name() == name).unwrap_or_else(|| kit::ev::machinery("replay: unknown variant"));
+                judge_crafted(run, base, &var, true);
+            }
+            Some("relabel") => judge_relabel(run, base, c["which"].as_str().unwrap_or(""), true),
+            _ => kit::ev::machinery("replay: unknown kind"),
+        }
+        return;
+    }
+
+    // (A) is asserted by finish_seed (machinery if an Update-intent manifest does not read Valid)
+    for b in &bases {
+        run.sample(json!({"seed": b.upd.id, "len": b.upd.signed.len(), "binding": b.upd.binding.name(), "declared_excluded": b.upd.excl,
+            "media_bytes": b.upd.signed.len() - b.upd.excl.iter().map(|(s, e)| e - s).sum::<usize>()}));
+    }
+    // (B)
+    for b in &bases {
+        for seed in [&b.upd, &b.upd2] {
+            let ed = content_edits(seed, thorough);
+            run.space(&format!("content mutations of {} ({} media bytes outside {:?})", seed.id, seed.prot.len(), seed.excl), ed.len() as u64, true);
+            let counts = std::sync::Mutex::new(std::collections::BTreeMap::<String, u64>::new());
+            par::for_each(&ed, |e| {
+                let c = judge_content(run, seed, e, false);
+                *counts.lock().unwrap().entry(c).or_insert(0) += 1;
+            });
+            for (k, n) in counts.into_inner().unwrap() {
+                run.outcome_n(format!("content:{k}"), n);
+            }
+        }
+    }
+    // (C)
+    let vars = variants(thorough);
+    run.space(&format!("crafted update manifests: {} variants x {} formats", vars.len(), bases.len()), (vars.len() * bases.len()) as u64, true);
+    for b in &bases {
+        for v in &vars {
+            judge_crafted(run, b, v, false);
+        }
+    }
+    // (D)
+    let rel = ["standard-as-update", "standard-edited-as-update", "update-as-standard"];
+    run.space("manifest box type relabelling", (rel.len() * bases.len()) as u64, true);
+    for b in &bases {
+        for w in rel {
+            judge_relabel(run, b, w, false);
+        }
+    }
+    run.extra("crafted_variants", json!(vars.iter().map(|v| v.name()).collect::<Vec<_>>()));
 }
